@@ -6,7 +6,9 @@ CONSTANTS
   DiagCap = TRUE
   PathOnly = FALSE
   AbruptExit = FALSE
+  SpawnOnFull = FALSE
   StartMain = FALSE
+  ReqTail = 0
   URIs <- OneUri
   Alphabet <- LifeAlphabet
 INVARIANTS OneResponsePerRequest ExitOnlyAfterExit EmitInv
